@@ -51,7 +51,7 @@ class Event:
         self.d = d
 
     def __getitem__(self, k):
-        return self.d[k]
+        return self.d.get(k)
 
     def get(self, k, default=None):
         return self.d.get(k, default)
@@ -632,8 +632,12 @@ class Interp:
                 inner = x.args[0]
                 outs = [self.destructure(a, n) for a in tm.alts(inner)]
                 return [phi([o[i] for o in outs]) for i in range(n)]
-        if value.op in ("phi", "ifexp"):
-            outs = [self.destructure(a, n) for a in tm.alts(value)]
+        if value.op == "ifexp":
+            a = self.destructure(value.args[1], n)
+            b = self.destructure(value.args[2], n)
+            return [x if x == y else T("ifexp", value.args[0], x, y) for x, y in zip(a, b)]
+        if value.op == "phi":
+            outs = [self.destructure(a, n) for a in value.args]
             return [phi([o[i] for o in outs]) for i in range(n)]
         return [T("unpack", value, i, n) for i in range(n)]
 
